@@ -216,6 +216,29 @@ class Run:
         self.cov["tlc_runs"].append({k: res.get(k) for k in ("module", "cfg", "generated", "distinct", "depth", "wall_s")})
         return res
 
+    def apalache(self, module, cinit, inv, expect_error=False, timeout=600):
+        """Apalache (symbolic, SMT): check `inv` in the initial states of spec/<module>.tla under constant initialiser `cinit`
+        (--length=0). Returns True when the outcome is the expected one; anything else is infrastructure trouble."""
+        d = tempfile.mkdtemp(prefix="apa-", dir=self.scratch)
+        for f in os.listdir(SPEC):
+            if f.endswith(".tla"):
+                shutil.copy(os.path.join(SPEC, f), d)
+        cmd = ["timeout", str(timeout), "apalache-mc", "check", "--cinit=" + cinit, "--init=Init", "--next=Next", "--inv=" + inv,
+               "--length=0", "--out-dir=" + os.path.join(d, "out"), module + ".tla"]
+        t = time.time()
+        r = subprocess.run(cmd, cwd=d, stdout=subprocess.PIPE, stderr=subprocess.STDOUT, text=True)
+        ok = "The outcome is: NoError" in r.stdout
+        err = "Checker has found an error" in r.stdout
+        self.cov.setdefault("apalache_runs", []).append(dict(module=module, cinit=cinit, inv=inv, outcome="NoError" if ok else ("Error" if err else "?"),
+                                                             expected="Error" if expect_error else "NoError", wall_s=round(time.time() - t, 2)))
+        shutil.rmtree(d, ignore_errors=True)
+        if not ok and not err:
+            raise Infra("apalache failed on %s %s %s:\n%s" % (module, cinit, inv, r.stdout[-1500:]))
+        if ok == expect_error:
+            raise Infra("apalache: %s under %s is %s, expected the opposite (the symbolic facts no longer match the reference operators)"
+                        % (inv, cinit, "proved" if ok else "refuted"))
+        return True
+
     def model_check(self, module, cfg, **kw):
         """Design-level exhaustive run: counts go to evidence; an invariant violation at design level is
         NOT a verdict by itself (rule 1) -> infra error unless caller handles it."""
